@@ -3,8 +3,9 @@ package main
 import (
 	"fmt"
 	"go/constant"
-	"sort"
+	"go/token"
 	"go/types"
+	"sort"
 	"strings"
 
 	"golang.org/x/tools/go/ssa"
@@ -729,7 +730,15 @@ func (s *Sess) checkAssertsAtReturn(ret *ssa.Return, st *State) {
 			}
 		}
 	}
-	sort.Slice(rets, func(i, j int) bool { return rets[i].Pos() < rets[j].Pos() })
+	// source order; the implicit return at the end of a function without results has no position
+	// and counts last
+	sort.SliceStable(rets, func(i, j int) bool {
+		pi, pj := rets[i].Pos(), rets[j].Pos()
+		if (pi == token.NoPos) != (pj == token.NoPos) {
+			return pj == token.NoPos
+		}
+		return pi < pj
+	})
 	ord := -1
 	for i, r := range rets {
 		if r == ret {
